@@ -209,12 +209,14 @@ func NormErr(s string) string {
 	return s
 }
 
-// Probe wraps program e as `call e x1..xk` using probe arguments from set s.
-func (l *Lib) Probe(e b6.Expression, k int, set int) b6.Expression {
+// Probe wraps program e as `call e x1..xk` using probe arguments from set s;
+// probes at different depths use different values (so that, e.g., an inner
+// and an outer parameter of the same name receive different arguments).
+func (l *Lib) Probe(e b6.Expression, k int, set int, depth int) b6.Expression {
 	args := []b6.Expression{e}
+	ps := l.Probes[set]
 	for i := 0; i < k; i++ {
-		a := l.Probes[set][i]()
-		args = append(args, a)
+		args = append(args, ps[(3*depth+i)%len(ps)]())
 	}
 	return b6.NewCallExpression(b6.NewSymbolExpression("call"), args)
 }
